@@ -87,6 +87,89 @@ def register(api):
     def rng(name, r):
         return f"def {name} : Nat × Nat := ({r[0]}, {r[1]})\n"
 
+    def gateway_glue(gw):
+        """shape of the `HandleIncomingPacketResult::Forwarded` arm of the receive closure in
+        `TunnelGateway::start_server` (the only code that calls `Dispatcher::try_dispatch` on tunnel input) and of the
+        `local_addr` binding -> {fact name: bool | int}.  Raises when the arm / its match on the policy check cannot be
+        found; a fact that no longer holds is emitted as `false` (the theorem over the generated names then fails)."""
+        def norm(t):
+            return re.sub(r"\s+", "", t)
+        srv = impl_block(gw, r"pub\s+async\s+fn\s+start_server\(", "TunnelGateway::start_server")
+        m = re.search(r"HandleIncomingPacketResult::Forwarded\s*\{([^{}]*)\}\s*=>\s*\{", srv)
+        if not m:
+            raise E("start_server: arm `HandleIncomingPacketResult::Forwarded { .. } => {` not found")
+        binds = [b.strip() for b in m.group(1).split(",") if b.strip()]
+        arm = impl_block(srv[m.start():], r"=>\s*\{", "start_server: Forwarded arm")
+        mm = re.search(r"match\s+inbound_datagram_check\(", arm)
+        if not mm or len(re.findall(r"inbound_datagram_check\(", srv)) != 1:
+            raise E("start_server: the Forwarded arm does not `match inbound_datagram_check(..)` exactly once")
+        # the call's argument list
+        i = arm.index("(", mm.start())
+        depth, j = 0, i
+        while True:
+            depth += {"(": 1, ")": -1}.get(arm[j], 0)
+            if depth == 0:
+                break
+            j += 1
+        call_args = norm(arm[i + 1:j]).rstrip(",")
+        body = impl_block(arm[j:], r"\{", "start_server: match on inbound_datagram_check")
+        # top-level arms `PATTERN => {block}` of that match
+        arms, k, inner = [], 0, body[1:-1]
+        while True:
+            a = re.search(r"\s*([^{}]*?)\s*=>\s*\{", inner[k:])
+            if not a:
+                break
+            blk = impl_block(inner[k + a.start():], r"=>\s*\{", "start_server: arm of the policy match")
+            arms.append((norm(a.group(1)), blk))
+            k = k + a.start() + inner[k + a.start():].index(blk) + len(blk)
+        if len(arms) < 2:
+            raise E("start_server: arms of the match on inbound_datagram_check not recognised")
+        pats = [p for p, _ in arms]
+        ok_blk = next((b for p, b in arms if p.startswith("Ok(")), "")
+        err_blk = "".join(b for p, b in arms if p.startswith("Err("))
+        okn, errn = norm(ok_blk), norm(err_blk)
+        la = re.search(r"let\s+local_addr\s*=\s*(.*?);", srv, flags=re.S)
+        if not la:
+            raise E("start_server: `let local_addr = ..;` not found")
+        lan = norm(la.group(1))
+        facts = {
+            "GATEWAY_FORWARDED_BINDS_PACKET": "packet" in binds,
+            "GATEWAY_CHECK_ARG_IS_WHOLE_PAYLOAD": call_args.split(",")[0] == "&packet[..]",
+            "GATEWAY_CHECK_ARG_IS_FROM_IP": call_args == "&packet[..],from.ip()",
+            "GATEWAY_CHECK_ARMS_ARE_OK_VIEW_AND_ERR": pats == ["Ok(view)", "Err(e)"],
+            "GATEWAY_DISPATCHES_VIEW": okn.count("try_dispatch(") == 1 and "self.dispatcher.try_dispatch(view);" in okn
+                                        and "letview" not in okn and "view=" not in okn,
+            "GATEWAY_OK_ARM_SENDS_NOTHING": not re.search(r"create_scmp_error|handle_outgoing_packet|try_queue_batched_packet|try_send", okn),
+            "GATEWAY_ERR_ARM_NEVER_DISPATCHES": "try_dispatch" not in errn and "dispatcher" not in errn,
+            "GATEWAY_REPLY_BUILT_ONCE": errn.count("create_scmp_error(") == 1 and errn.count("try_queue_batched_packet(") == 1
+                                         and errn.count("handle_outgoing_packet(") == 1,
+            "GATEWAY_REPLY_SRC_IS_LOCAL_ADDR": "Self::create_scmp_error(e,local_addr," in errn,
+            "GATEWAY_REPLY_DST_IS_FROM_IP": "Self::create_scmp_error(e,local_addr,ScionAddr::new(IsdAsn::WILDCARD,from.ip().into()),&muttarget_buf,)" in errn
+                                             or "Self::create_scmp_error(e,local_addr,ScionAddr::new(IsdAsn::WILDCARD,from.ip().into()),&muttarget_buf)" in errn,
+            "GATEWAY_REPLY_SENT_TO_FROM": "snaptun_srv.handle_outgoing_packet(target_buf,from)" in errn
+                                           and re.search(r"try_queue_batched_packet\(&socket,&mutsender,Self::wg_kind_to_bytes\(out_pkt\),from,?\)", errn) is not None,
+            "LOCAL_ADDR_IS_SOCKET_LOCAL_IP": lan.startswith("ScionHostAddr::from(socket.local_addr().map(|s|s.ip())"),
+            "LOCAL_ADDR_FALLBACK_UNSPECIFIED": ".unwrap_or(IpAddr::V4(Ipv4Addr::UNSPECIFIED))" in lan,
+        }
+        counts = {"GATEWAY_TRY_DISPATCH_SITES": len(re.findall(r"try_dispatch\(", srv)),
+                  "GATEWAY_CHECK_ARMS": len(arms)}
+        return facts, counts
+
+    def path_type_arms():
+        """`impl From<u8> for PathType`: literal arms [(literal, ordinal of the variant in the arm list)] and whether the
+        fallback is `other => PathType::Other(other)` (then `from` is injective iff literals and variants are distinct)"""
+        src = api.strip_comments(api.read(PATH_TYPES))
+        blk = impl_block(src, r"impl\s+From<u8>\s+for\s+PathType\s*\{", "PathType::from(u8)")
+        lits = [(int_lit(m.group(1)), m.group(2)) for m in re.finditer(r"\b(0b[01_]+|0x[0-9a-fA-F_]+|\d+)\s*=>\s*PathType::(\w+)\s*,", blk)]
+        names = []
+        for _, n in lits:
+            if n not in names:
+                names.append(n)
+        fb = re.search(r"\b(\w+)\s*=>\s*PathType::Other\(\s*\1\s*\)", blk)
+        if not lits or not fb or "Other" in names:
+            raise E("PathType::from(u8): literal arms + `other => PathType::Other(other)` not recognised")
+        return [(v, names.index(n)) for v, n in lits]
+
     # -----------------------------------------------------------------------------------------
     def header_data():
         src = api.strip_comments(api.read(HDR_LAYOUT))
@@ -238,6 +321,22 @@ def register(api):
         body += f"def EXPECTED_ADDR_LEN : List Nat := {[exp[0], exp[1], exp[2]]}\n"
         body += "/-- kinds for which `WireHostAddr::ip()` is `Some` -/\n"
         body += "def IP_KINDS : List Nat := [0, 1]\n"
+        body += "/-- (kind, family of the `IpAddr` that `WireHostAddr::ip()` builds from it: 4 = `IpAddr::V4`, 6 = `IpAddr::V6`) -/\n"
+        body += "def IP_KIND_FAMILY : List (Nat × Nat) := [(0, 4), (1, 6)]\n"
+        arms = path_type_arms()
+        vals["PATH_TYPE_FROM_U8_ARMS"] = [list(a) for a in arms]
+        body += "/-- literal arms of `PathType::from(u8)`: (byte, ordinal of the variant); every other byte `b` becomes\n"
+        body += "    `PathType::Other(b)` (fallback arm recognised by the translator) -/\n"
+        body += "def PATH_TYPE_FROM_U8_ARMS : List (Nat × Nat) := [" + ", ".join(f"({v}, {o})" for v, o in arms) + "]\n"
+        facts, counts = gateway_glue(gw)
+        body += "/-! shape of the `HandleIncomingPacketResult::Forwarded` arm of the receive closure of\n"
+        body += "    `TunnelGateway::start_server` (gateway.rs) - the code `gatewayStep` stands for - read from the source text -/\n"
+        for k2, v2 in facts.items():
+            vals[k2] = bool(v2)
+            body += f"def {k2} : Bool := {'true' if v2 else 'false'}\n"
+        for k2, v2 in counts.items():
+            vals[k2] = v2
+            body += f"def {k2} : Nat := {v2}\n"
         body += "end ScionVerif.Generated.SnapFilter\n"
         return api.write_lean("SnapFilter", body, [HDR_LAYOUT, HOST_ADDR, PATH_TYPES, STD_LAYOUT, ONEHOP_LAYOUT, POLICY, GATEWAY, SCMP_TYPES]), vals
 
